@@ -143,6 +143,9 @@ func (p *SimIdP) Authorize(location string) (redirect string, code *Code, err er
 	return ar.RedirectURI + sep + "code=" + url.QueryEscape(c.Value) + "&state=" + url.QueryEscape(ar.State), c, nil
 }
 
+// S256 is the PKCE S256 transformation.
+func S256(v string) string { return s256(v) }
+
 func s256(v string) string {
 	d := sha256.Sum256([]byte(v))
 	return base64.RawURLEncoding.EncodeToString(d[:])
